@@ -244,6 +244,12 @@ def classify(fn: Fn, node: ast.AST, depth=0, seen=None) -> List[Role]:
             if isinstance(op, (ast.Is, ast.IsNot)) and isinstance(o, ast.Constant) and o.value is None:
                 return [("TRUTH", None, p)]
             c = _consts(fn, o)
+            if isinstance(op, (ast.In, ast.NotIn)) and p.left is node and not isinstance(o, ast.Constant):
+                # `text in NAME` where NAME is one string, not a collection of strings (`("environ")` without its comma):
+                # a substring test against that string
+                whole = fold_in_fn(o, fn, default=None)
+                if isinstance(whole, str) and len(whole) > 1:
+                    return [("UNCLASSIFIED", f"substring test against the string {whole!r} (a one-element tuple without its comma?)", p)]
             if isinstance(op, (ast.In, ast.NotIn)) and c is None and p.left is node:
                 c = table_keys(fn, o)
             if isinstance(op, (ast.In, ast.NotIn)) and c is None:
